@@ -1,6 +1,9 @@
 package main
 
 import (
+	"encoding/json"
+	"path/filepath"
+	"os"
 	"fmt"
 	"go/ast"
 	"go/constant"
@@ -413,6 +416,8 @@ type retRec struct {
 }
 
 type Frame struct {
+	loopAssign map[int]int // source loop ordinal -> contract loop ordinal
+	renames map[string]string // old local name (as written in the contract) -> current name
 	e        *Engine
 	fn       *ssa.Function
 	regs     map[ssa.Value]Val
@@ -452,6 +457,8 @@ type deferRec struct {
 }
 
 type loopInfo struct {
+	cord    int  // the contract's ordinal for this loop when it differs from the source ordinal (0: same)
+	cordSet bool
 	header  *ssa.BasicBlock
 	blocks  map[int]bool
 	latches []*ssa.BasicBlock
@@ -464,7 +471,105 @@ func (e *Engine) newFrame(fn *ssa.Function, depth int) *Frame {
 	fr := &Frame{e: e, fn: fn, regs: map[ssa.Value]Val{}, depth: depth, out: map[int]*State{}, edge: map[[2]int]string{}, loops: map[int]*loopInfo{}, envAt: map[int]map[string]ssa.Value{}, iters: map[ssa.Value]*iterVal{}, loopHavoc: map[int]map[ssa.Value]Val{}}
 	fr.findLoops()
 	fr.buildEnv()
+	if depth == 0 {
+		fr.computeRenames()
+	}
 	return fr
+}
+
+// headerNames: the source-level names in scope at a loop header, with their types.
+func (fr *Frame) headerNames(li *loopInfo) map[string]string {
+	out := map[string]string{}
+	if idom := li.header.Idom(); idom != nil {
+		for n, v := range fr.envAt[idom.Index] {
+			if strings.HasPrefix(n, "&") {
+				n = n[1:]
+			}
+			out[n] = types.TypeString(v.Type(), func(p *types.Package) string { return p.Name() })
+		}
+	}
+	for _, in := range li.header.Instrs {
+		if phi, ok := in.(*ssa.Phi); ok && phi.Comment != "" && phi.Comment != "rangeindex" {
+			out[phi.Comment] = types.TypeString(phi.Type(), func(p *types.Package) string { return p.Name() })
+		}
+	}
+	return out
+}
+
+// computeRenames: a contract names local variables in its loop invariants. When a local was renamed since the
+// baseline was written (baseline/names.json records the names in scope at every loop header), the old name is
+// followed to the new one: a name that disappeared is matched with the only new name of the same type at that
+// header. A wrong guess cannot make anything pass that should not -- the invariant is then simply not provable.
+func (fr *Frame) computeRenames() {
+	fr.renames = map[string]string{}
+	base := loadNames()[funcKey(fr.fn)]
+	if base == nil {
+		return
+	}
+	sites := map[string]map[string]string{}
+	for _, li := range fr.loopList {
+		sites[fmt.Sprint(li.ordinal)] = fr.headerNames(li)
+	}
+	for k, v := range fr.iterSiteNames() {
+		sites[k] = v
+	}
+	for site, cur := range sites {
+		old := base[site]
+		if old == nil {
+			continue
+		}
+		for on, ot := range old {
+			if _, still := cur[on]; still {
+				continue
+			}
+			cand := ""
+			n := 0
+			for cn, ct := range cur {
+				if _, wasThere := old[cn]; !wasThere && ct == ot {
+					cand = cn
+					n++
+				}
+			}
+			if n == 1 {
+				fr.renames[on] = cand
+			}
+		}
+	}
+}
+
+// iterSiteNames: the names in scope at every callback-iteration call (Walk, IterateX...), keyed "iter<N>".
+func (fr *Frame) iterSiteNames() map[string]map[string]string {
+	out := map[string]map[string]string{}
+	for _, b := range fr.fn.Blocks {
+		for _, in := range b.Instrs {
+			ci, ok := in.(ssa.CallInstruction)
+			if !ok || !isIterationCall(ci.Common()) {
+				continue
+			}
+			m := map[string]string{}
+			for n, v := range fr.envAt[b.Index] {
+				if strings.HasPrefix(n, "&") {
+					n = n[1:]
+				}
+				m[n] = types.TypeString(v.Type(), func(p *types.Package) string { return p.Name() })
+			}
+			out[fmt.Sprintf("iter%d", fr.iterOrdinal(ci))] = m
+		}
+	}
+	return out
+}
+
+var namesCache map[string]map[string]map[string]string
+
+func loadNames() map[string]map[string]map[string]string {
+	if namesCache != nil {
+		return namesCache
+	}
+	namesCache = map[string]map[string]map[string]string{}
+	if b, err := os.ReadFile(filepath.Join(envOr("GOVC_FROZEN", verifDir), "baseline", "names.json")); err == nil {
+		json.Unmarshal(b, &namesCache)
+	}
+	return namesCache
 }
 
 func (fr *Frame) findLoops() {
@@ -1215,7 +1320,7 @@ func (fr *Frame) loopCut(li *loopInfo, cur *State, phiVals map[*ssa.Phi]Val) {
 	invs := fr.loopInvariants(li)
 	for _, inv := range invs {
 		f := e.evalBool(inv.expr, entryEnv)
-		o := e.addObl(cur, fmt.Sprintf("loop%d.inv.init", li.ordinal), fr.lbl(inv.label), f, h.Instrs[0].Pos())
+		o := e.addObl(cur, fmt.Sprintf("loop%d.inv.init", li.nameOrd()), fr.lbl(inv.label), f, h.Instrs[0].Pos())
 		_ = o
 	}
 	// havoc: phis at header
@@ -1257,7 +1362,7 @@ func (fr *Frame) loopCut(li *loopInfo, cur *State, phiVals map[*ssa.Phi]Val) {
 	autoFrame := fr.autoFrameHeaps(mods)
 	for _, n := range autoFrame {
 		srt := e.heapSorts[n]
-		e.addObl(cur, fmt.Sprintf("loop%d.inv.init", li.ordinal), fr.lbl("auto_frame_"+n), eq(e.heap(cur, n, srt), e.heap(fr.entry, n, srt)), h.Instrs[0].Pos())
+		e.addObl(cur, fmt.Sprintf("loop%d.inv.init", li.nameOrd()), fr.lbl("auto_frame_"+n), eq(e.heap(cur, n, srt), e.heap(fr.entry, n, srt)), h.Instrs[0].Pos())
 	}
 	for _, name := range modNames {
 		if name == "G_*" {
@@ -1360,7 +1465,7 @@ func (fr *Frame) commuteObls(li *loopInfo, cur *State, phiVals map[*ssa.Phi]Val,
 		s21, p21, x21 = fr.runLoopBody(li, s2, p2, ka, va)
 	}
 	e.quiet--
-	ord := li.ordinal
+	ord := li.nameOrd()
 	if s12 == nil || s21 == nil {
 		e.addObl(base, fmt.Sprintf("order.loop%d", ord), fr.lbl("body_runs_to_the_back_edge"), "false", li.header.Instrs[0].Pos())
 		return
@@ -1878,11 +1983,11 @@ func (fr *Frame) backEdges(b *ssa.BasicBlock, st *State) {
 		env := fr.invEnv(li, bst, phiVals)
 		for _, inv := range fr.loopInvariants(li) {
 			f := e.evalBool(inv.expr, env)
-			e.addObl(bst, fmt.Sprintf("loop%d.inv.preserved", li.ordinal), fr.lbl(inv.label), f, b.Instrs[len(b.Instrs)-1].Pos())
+			e.addObl(bst, fmt.Sprintf("loop%d.inv.preserved", li.nameOrd()), fr.lbl(inv.label), f, b.Instrs[len(b.Instrs)-1].Pos())
 		}
 		for _, n := range fr.autoFrameHeaps(fr.loopMods(li)) {
 			srt := e.heapSorts[n]
-			e.addObl(bst, fmt.Sprintf("loop%d.inv.preserved", li.ordinal), fr.lbl("auto_frame_"+n), eq(e.heap(bst, n, srt), e.heap(fr.entry, n, srt)), b.Instrs[len(b.Instrs)-1].Pos())
+			e.addObl(bst, fmt.Sprintf("loop%d.inv.preserved", li.nameOrd()), fr.lbl("auto_frame_"+n), eq(e.heap(bst, n, srt), e.heap(fr.entry, n, srt)), b.Instrs[len(b.Instrs)-1].Pos())
 		}
 	}
 }
@@ -2467,4 +2572,12 @@ func (fr *Frame) doNext(x *ssa.Next, st *State) Val {
 	e.assumeIn(st, and(e.typeInv(k, mt.Key()), e.typeInv(v, mt.Elem())))
 	e.setHeap(st, it.seen, seenSort, ite(ok, app("store", seen, k, "true"), seen))
 	return Val{T: x.Type(), Tup: []Val{{S: ok, T: types.Typ[types.Bool]}, {S: k, T: mt.Key()}, {S: v, T: mt.Elem()}}}
+}
+
+// nameOrd: the ordinal used in obligation names (the contract's numbering, so that names survive added loops).
+func (li *loopInfo) nameOrd() int {
+	if li.cordSet {
+		return li.cord
+	}
+	return li.ordinal
 }
